@@ -944,6 +944,7 @@ class SRegion(object):
         self.kind = kind
         self.tag = tag         # what the content is, where known (e.g. ('zeros',), ('field',))
         self.writes = []       # (off, n) regions written, on the root
+        self.items = []        # ('get'|'set', index on the root, value) single-item accesses, in order
 
     def __mul__(self, k):
         return SRegion(self.n * k, kind='bytes', tag=self.tag)
@@ -959,8 +960,26 @@ class SRegion(object):
     def length(self):
         return self.n
 
+    def _item_index(self, i):
+        if isinstance(i, SBool):
+            i = i + 0
+        if not isinstance(i, (int, SInt)) or isinstance(i, bool):
+            raise TypeError('indices must be integers')
+        if bool(i < 0):
+            i = i + self.n
+        if bool(Or(i < 0, i >= self.n)):
+            raise IndexError('index out of range')
+        return self.off + i
+
     def __getitem__(self, i):
-        if not isinstance(i, slice) or i.step not in (None, 1):
+        if not isinstance(i, slice):
+            # single item: content is not modelled, so the value is an unconstrained byte;
+            # the access is logged on the root (contracts relate logged reads to their use)
+            j = self._item_index(i)
+            v = engine().fresh('region.item', 0, 255)
+            self.root.items.append(('get', j, v))
+            return v
+        if i.step not in (None, 1):
             raise Unsupported('only contiguous slices of a symbolic-length buffer')
         n = self.n
         start = 0 if i.start is None else i.start
@@ -973,9 +992,19 @@ class SRegion(object):
         return SRegion(stop - start, self.off + start, self.root, 'view' if self.kind == 'view' else self.kind)
 
     def __setitem__(self, i, v):
-        tgt = self[i] if isinstance(i, slice) else None
-        if tgt is None:
-            raise Unsupported('item store into a symbolic-length buffer')
+        if not isinstance(i, slice):
+            if self.kind == 'bytes':
+                raise TypeError("'bytes' object does not support item assignment")
+            j = self._item_index(i)
+            if isinstance(v, SBool):
+                v = v + 0
+            if not isinstance(v, (int, SInt)) or isinstance(v, bool) and False:
+                raise TypeError('an integer is required')
+            if bool(Or(v < 0, v > 255)):
+                raise ValueError('byte must be in range(0, 256)')
+            self.root.items.append(('set', j, v))
+            return
+        tgt = self[i]
         ln = len(v) if not isinstance(v, SRegion) else v.n
         if self.kind == 'view' and not bool(tgt.n == ln):
             raise ValueError('memoryview assignment: lvalue and rvalue have different structures')
